@@ -31,7 +31,7 @@ FLIP_OFFSETS_PER_CHUNK = 3
 TEAR_OFFSETS_PER_CHUNK = 150
 FIELDS_PER_CHUNK = 2
 ALL_MASK = 511
-MAX_RERUNS = 8
+MAX_RERUNS = 16
 SHRINK_BUDGET = 16
 
 
@@ -778,7 +778,7 @@ class C10(Driver):
         return [v] if v else []
 
     def batch_timeout(self, n):
-        return 2500 + 15 * n
+        return 1500 + 8 * n
 
     def execute(self, plan):
         """run the batch; when a case ends the child (violation, or loaded code that loops/blocks/exhausts memory) note
@@ -805,7 +805,7 @@ class C10(Driver):
             if res.outcome == "timeout" and idx is not None:
                 # a wall-clock kill: is it this case (a loop in loaded code, or a hang of the loader) or just a slow
                 # machine?  run the case alone with a generous limit
-                res2 = r.run(self.render(plan, [idx]), 2 * self.timeout_ms if info["phase"] == "L" else 6000)
+                res2 = r.run(self.render(plan, [idx]), 2 * self.timeout_ms if info["phase"] == "L" else 3000)
                 wall += res2.wall_us
                 info2 = read_log(res2.log or "")
                 if res2.outcome == "ok":
